@@ -1004,6 +1004,16 @@ def drop_default_arguments(modules) -> int:
     for modname, m in modules.items():
         if modname.startswith("_fixture"):
             continue
+        # calls on `self` inside a class resolve to that class's own method when it defines one
+        own_of: Dict[int, Dict[str, Tuple[ast.FunctionDef, bool]]] = {}
+        for cls_ in [x for x in ast.walk(m.tree) if isinstance(x, ast.ClassDef)]:
+            meths = {s_.name: (s_, not any(ast.unparse(d) == "staticmethod" for d in s_.decorator_list)) for s_ in cls_.body if isinstance(s_, ast.FunctionDef)}
+            for s_ in cls_.body:
+                if isinstance(s_, ast.FunctionDef) and s_.args.args:
+                    me_ = s_.args.args[0].arg
+                    for x in ast.walk(s_):
+                        if isinstance(x, ast.Call) and isinstance(x.func, ast.Attribute) and isinstance(x.func.value, ast.Name) and x.func.value.id == me_ and x.func.attr in meths:
+                            own_of[id(x)] = meths
         for c in [x for x in ast.walk(m.tree) if isinstance(x, ast.Call)]:
             if isinstance(c.func, ast.Attribute):
                 nm, via_attr = c.func.attr, True
@@ -1012,6 +1022,8 @@ def drop_default_arguments(modules) -> int:
             else:
                 continue
             defs = by_name.get(nm)
+            if id(c) in own_of:
+                defs = [own_of[id(c)][nm]]
             if not defs or nm.startswith("__") or any(isinstance(a_, ast.Starred) for a_ in c.args) or any(k.arg is None for k in c.keywords):
                 continue
             if not c.args and not c.keywords:
@@ -1554,8 +1566,10 @@ def loops_to_comprehensions(tree: ast.AST):
                             v_ = cand.value
                             empty = (isinstance(v_, (ast.Dict, ast.List)) and not (getattr(v_, "keys", None) or getattr(v_, "elts", None))) or \
                                 (isinstance(v_, ast.Call) and isinstance(v_.func, ast.Name) and v_.func.id in ("dict", "list") and not v_.args and not v_.keywords)
+                            # (a fresh empty local that nothing in between mentions can be created later: whatever runs in between - branches,
+                            # raises, loops - neither reads nor writes it)
                             if empty and any(isinstance(x, ast.Name) and x.id == nm_ for x in ast.walk(lp_)) and not any(isinstance(x, ast.Name) and x.id == nm_ for m_ in blk[j_ + 1:k_] for x in ast.walk(m_)) \
-                                    and not any(isinstance(m_, (ast.For, ast.While, ast.If, ast.Try, ast.With, ast.Return)) for m_ in blk[j_ + 1:k_]):
+                                    and not any(isinstance(x, (ast.FunctionDef, ast.Lambda, ast.ClassDef)) for m_ in blk[j_ + 1:k_] for x in ast.walk(m_)):
                                 blk.insert(k_ - 1, blk.pop(j_))
                                 break
                 i = 0
